@@ -4,6 +4,7 @@ mod alloc_track;
 mod c14;
 mod c_file;
 mod c_hist;
+mod c_io;
 mod c_merge;
 mod c_open;
 mod c_sorter;
@@ -64,6 +65,9 @@ fn main() {
         "sorter-c17" => { cases.prop = "C17".into(); c_sorter::generate(&mut cases, &mut rng, thorough, "C17") }
         "sorter-real" => { cases.prop = "C08".into(); c_sorter::generate_real(&mut cases, &mut rng) }
         "open-c13" => { cases.prop = "C13".into(); c_open::generate(&mut cases, &mut rng, thorough) }
+        "io-write" => { cases.prop = "C11".into(); c_io::generate_c11_write(&mut cases, &mut rng, thorough) }
+        "io-read" => { cases.prop = "C11".into(); c_io::generate_c11_read(&mut cases, &mut rng, thorough) }
+        "faults-c12" => { cases.prop = "C12".into(); c_io::generate_c12(&mut cases, &mut rng, thorough) }
         "C14-sweep" => {
             match c14::sweep_all() {
                 None => println!("SWEEP ok 4294967296"),
